@@ -8,12 +8,15 @@ import (
 	"strings"
 
 	sdk "github.com/cosmos/cosmos-sdk/types"
+	authtypes "github.com/cosmos/cosmos-sdk/x/auth/types"
+	banktypes "github.com/cosmos/cosmos-sdk/x/bank/types"
 	abci "github.com/tendermint/tendermint/abci/types"
 
 	atypes "github.com/ovrclk/akash/types"
 	"github.com/ovrclk/akash/types/unit"
 	audtypes "github.com/ovrclk/akash/x/audit/types"
 	dtypes "github.com/ovrclk/akash/x/deployment/types"
+	etypes "github.com/ovrclk/akash/x/escrow/types"
 	mtypes "github.com/ovrclk/akash/x/market/types"
 	ptypes "github.com/ovrclk/akash/x/provider/types"
 )
@@ -173,6 +176,13 @@ func (w *World) Msg(a Action) (sdk.Msg, string, error) {
 		}
 		return &dtypes.MsgCreateDeployment{ID: did, Groups: gs, Version: version(i64(a.Version)), Deposit: coin(i64(a.Deposit))},
 			"/akash.deployment.v1beta1.Msg/CreateDeployment", nil
+	case "SendToEscrow":
+		from, err := w.Addr(a.T)
+		if err != nil {
+			return nil, "", err
+		}
+		return &banktypes.MsgSend{FromAddress: from.String(), ToAddress: authtypes.NewModuleAddress(etypes.ModuleName).String(),
+			Amount: sdk.NewCoins(coin(i64(a.Amount)))}, "/cosmos.bank.v1beta1.Msg/Send", nil
 	case "DepositDeployment":
 		did, err := w.did(a)
 		return &dtypes.MsgDepositDeployment{ID: did, Amount: coin(i64(a.Amount))}, "/akash.deployment.v1beta1.Msg/DepositDeployment", err
